@@ -48,6 +48,7 @@ def run(ctx):
                 "x 2 formats x filter flags x worker counts; distinct = (workspace features, invocation, outcome class)")
     vh = VH(vh_bin(), locklog=os.path.join(ctx.scratch_root, "lock_vh.log"))
     try:
+        pinned(ctx, vh)
         for i in range(n):
             root = ctx.scratch(f"w{i}")
             ws = gen.gen_workspace(root, ctx.rng, venv=(i % 4 == 0), allow_imports=(i % 2 == 0), depth=ctx.rng.randint(2, 4))
@@ -162,3 +163,28 @@ def run(ctx):
             shutil.rmtree(root, ignore_errors=True)
     finally:
         vh.close()
+
+
+def pinned(ctx, vh):
+    """deterministic demonstration of the recorded finding: the unused report of the pinned workspace depends on the
+    registration order (which the CLI's parallel scan does not fix)"""
+    from ..witness import WITNESS, ws_from_witness
+    w = WITNESS[KF_ORDER]
+    ws = ws_from_witness(ctx, w)
+    res = []
+    sens = set()
+    for order in (w["order"], w["other_order"]):
+        db = vh.new_db()
+        vh.call(op="batch", cmds=[{"op": "analyze_fresh", "db": db, "path": ws.abs(r), "text": ws.files[r]} for r in order])
+        res.append(sorted(map(tuple, vh.call(op="unused", db=db)["unused"])))
+        if not sens:
+            sens, _m = sensitive(ws, vh.call(op="raw", db=db))
+        vh.call(op="drop_db", db=db)
+    ctx.judged()
+    if res[0] != res[1]:
+        names = {k[1] for k in set(res[0]) ^ set(res[1])}
+        if names <= sens and ctx.known(KF_ORDER):
+            ctx.count("kf_pinned_witness")
+        else:
+            ctx.violation({"kind": "unused-report-depends-on-order", "names": sorted(names)}, {"a": res[0], "b": res[1]}, files=ws.files)
+    shutil.rmtree(ws.root, ignore_errors=True)
